@@ -58,7 +58,7 @@ CLAIMS = {
         text=("Machine-checked theorems over Generated.v (the inverse-operator table and the Not dispatch are extracted from symbolic.py by the "
               "fail-closed translator on every run): the table is total, every row is the TRUE inverse on all operand pairs and it is "
               "involutive; neg is De Morgan + toggle; C03_complement (the negated tree holds exactly where the tree does not, for every tree "
-              "and depth), C03_double (negating twice restores the ORIGINAL node), C03_elab_sat (what the user writes means what it says). "
+              "and depth), C03_double (negating twice restores the ORIGINAL node), C03_elab_sat (what the user writes means what it says), C03_constant_operand (a bool constant passed as an operand is negated like any other condition). "
               "Row level: C02's evaluator theorems. A changed table row breaks inverse_negates; the check then searches for a failing query."),
         design='7/C03', technique='Coq proof over translator-generated tables (re-checked against the source each run) + structural induction + correspondence',
         note=BASE_NOTE + " Order comparisons are modelled as a total order (numeric operands); partial orders (NaN, sets) are outside the value subset. Predicates (Variable nodes with _invert_) are covered by correspondence only."),
